@@ -76,12 +76,53 @@ pub fn gen_tiles_shape(rng: &mut Rng, big: bool, shape: u64) -> TileMap {
 }
 
 fn tilejson(rng: &mut Rng) -> TileJSON {
-	let mut t = TileJSON::default();
+	// a full document: strings over Unicode, list and byte values, custom keys, zoom range, bounds, center, vector_layers
 	let names = ["plain", "Ünïcödé ✓", "quote\" and \\ backslash", "line\nbreak\ttab", "emoji 😀 astral"];
-	let _ = t.set_string("name", *rng.pick(&names));
-	let _ = t.set_string("description", "harness metadata");
-	let _ = t.set_string("attribution", "© someone");
-	t
+	let mut o: Vec<String> = vec![format!("\"name\":{}", jstr(*rng.pick(&names))), "\"description\":\"harness metadata\"".into(), "\"attribution\":\"© someone\"".into(), "\"tilejson\":\"3.0.0\"".into()];
+	if rng.chance(2, 3) { o.push(format!("\"minzoom\":{}", rng.pick(&[0u8, 1, 2, 3, 5, 9]))); }
+	if rng.chance(2, 3) { o.push(format!("\"maxzoom\":{}", rng.pick(&[2u8, 5, 9, 14, 22, 30]))); }
+	if rng.chance(1, 2) { o.push(format!("\"bounds\":{}", rng.pick(&["[-180,-85.05112877980659,180,85.05112877980659]", "[-10.5,-20.25,30.75,40.125]", "[13,52,14,53]", "[-180,-90,180,90]"]))); }
+	if rng.chance(1, 2) { o.push(format!("\"center\":{}", rng.pick(&["[0,0,3]", "[13.4,52.5,10]", "[-122.25,37.5,0]"]))); }
+	if rng.chance(1, 2) { o.push("\"version\":\"1.2.3\"".into()); }
+	if rng.chance(1, 2) { o.push("\"tiles\":[\"https://example.org/{z}/{x}/{y}\",\"https://b.example.org/{z}/{x}/{y}\"]".into()); }
+	if rng.chance(1, 2) { o.push(format!("\"fillzoom\":{}", rng.below(20))); }
+	if rng.chance(1, 2) { o.push(format!("\"x-custom\":{}", jstr(*rng.pick(&names)))); }
+	if rng.chance(1, 3) { o.push("\"vector_layers\":[{\"id\":\"roads\",\"fields\":{\"kind\":\"String\",\"lanes\":\"Number\"},\"minzoom\":2,\"maxzoom\":9,\"description\":\"d\"},{\"id\":\"water\",\"fields\":{}}]".into()); }
+	let text = format!("{{{}}}", o.join(","));
+	TileJSON::try_from(text.as_str()).unwrap_or_else(|e| panic!("harness TileJSON {text} rejected: {e:#}"))
+}
+
+/// C17: `back` (read from a container) against `doc` (what was written): everything unchanged, except that the zoom range and the
+/// bounds may be narrowed - never widened, and never narrowed beyond the stored coverage
+fn tilejson_diff(doc: &TileJSON, back: &TileJSON, cov: &TileBBoxPyramid) -> Option<String> {
+	let (od, ob) = (doc.as_object(), back.as_object());
+	let get = |o: &versatiles_core::json::JsonObject, k: &str| -> Option<String> { o.get(k).map(|v| v.stringify()) };
+	let mut keys: Vec<String> = od.iter().map(|(k, _)| k.clone()).chain(ob.iter().map(|(k, _)| k.clone())).collect(); keys.sort(); keys.dedup();
+	for k in keys {
+		match k.as_str() {
+			"minzoom" | "maxzoom" | "bounds" => {}
+			_ => if get(&od, &k) != get(&ob, &k) { return Some(format!("{k}: wrote {:?}, read {:?}", get(&od, &k), get(&ob, &k))); }
+		}
+	}
+	let (dmin, dmax) = (doc.values.get_byte("minzoom"), doc.values.get_byte("maxzoom"));
+	let (bmin, bmax) = (back.values.get_byte("minzoom"), back.values.get_byte("maxzoom"));
+	let (cmin, cmax) = (cov.get_zoom_min(), cov.get_zoom_max());
+	if let Some(d) = dmin { match bmin { None => return Some(format!("minzoom {d} lost")), Some(b) => if b < d || b > d.max(cmin.unwrap_or(d)) { return Some(format!("minzoom: wrote {d}, coverage starts at {cmin:?}, read {b}")); } } }
+	else if let Some(b) = bmin { if Some(b) != cmin { return Some(format!("minzoom: none written, coverage starts at {cmin:?}, read {b}")); } }
+	if let Some(d) = dmax { match bmax { None => return Some(format!("maxzoom {d} lost")), Some(b) => if b > d || b < d.min(cmax.unwrap_or(d)) { return Some(format!("maxzoom: wrote {d}, coverage ends at {cmax:?}, read {b}")); } } }
+	else if let Some(b) = bmax { if Some(b) != cmax { return Some(format!("maxzoom: none written, coverage ends at {cmax:?}, read {b}")); } }
+	let eps = 1e-6;
+	let cg = cov.get_geo_bbox();
+	match (&doc.bounds, &back.bounds) {
+		(Some(d), None) => return Some(format!("bounds {d:?} lost")),
+		(Some(d), Some(b)) => {
+			if b.0 < d.0 - eps || b.1 < d.1 - eps || b.2 > d.2 + eps || b.3 > d.3 + eps { return Some(format!("bounds widened: wrote {d:?}, read {b:?}")); }
+			if let Some(c) = &cg { let i = (d.0.max(c.0), d.1.max(c.1), d.2.min(c.2), d.3.min(c.3)); if i.0 <= i.2 && i.1 <= i.3 && (b.0 > i.0 + eps || b.1 > i.1 + eps || b.2 < i.2 - eps || b.3 < i.3 - eps) { return Some(format!("bounds narrowed beyond the coverage: wrote {d:?}, coverage {c:?}, read {b:?}")); } }
+		}
+		(None, Some(b)) => if let Some(c) = &cg { if (b.0 - c.0).abs() > eps || (b.1 - c.1).abs() > eps || (b.2 - c.2).abs() > eps || (b.3 - c.3).abs() > eps { return Some(format!("bounds: none written, coverage {c:?}, read {b:?}")); } },
+		(None, None) => {}
+	}
+	None
 }
 
 pub const CONTAINERS: [&str; 5] = ["versatiles", "pmtiles", "mbtiles", "tar", "dir"];
@@ -193,10 +234,8 @@ impl<'a> RoundTrip<'a> {
 		}
 		// metadata (C17): what was given comes back (bounds/zoom only narrowed)
 		if let (true, Some(tj)) = (container != "mbtiles", tj) {
-			let back = reader.get_tilejson();
-			for key in ["name", "description", "attribution"] {
-				if back.get_str(key) != tj.get_str(key) { viol.push(V { kind: "metadata".into(), input: desc.clone(), detail: format!("{key}: wrote {:?}, read {:?}", tj.get_str(key), back.get_str(key)) }); break; }
-			}
+			*stats.entry("metadata".into()).or_insert(0) += 1;
+			if let Some(d) = tilejson_diff(tj, reader.get_tilejson(), expect_pyramid) { viol.push(V { kind: "metadata".into(), input: format!("{desc} tilejson={}", tj.as_string()), detail: d }); }
 		}
 	}
 }
@@ -290,6 +329,33 @@ fn pmtiles_root_boundary(rtp: &RoundTrip, rng: &mut Rng, viol: &mut Vec<V>, stat
 	let _ = std::fs::remove_file(rtp.dir.join("boundary.pmtiles"));
 }
 fn rle(s: &str) -> String { let mut o = String::new(); let b = s.as_bytes(); let mut i = 0; while i < b.len() { let mut j = i; while j < b.len() && b[j] == b[i] { j += 1; } o.push_str(&format!("{}x{}.", b[i] as char, j - i)); i = j; } o }
+
+/// C17: many TileJSON documents through the four containers that store them, with small tile sets whose coverage starts
+/// above and below the documents' zoom range
+pub fn run_meta(ctx: &Ctx, col: &mut Collector) -> Result<()> {
+	let rt = tokio::runtime::Builder::new_multi_thread().worker_threads(4).enable_all().build()?;
+	let dir = std::fs::canonicalize(&ctx.out)?.join("metafiles");
+	std::fs::create_dir_all(&dir)?;
+	let mut viol: Vec<V> = Vec::new();
+	let mut stats: BTreeMap<String, u64> = BTreeMap::new();
+	let mut rng = Rng::new(ctx.seed ^ 0x7157);
+	let rtp = RoundTrip { rt: &rt, dir: dir.clone(), lines: Default::default(), indep: false };
+	for i in 0..(if ctx.thorough { 300 } else { 40 }) {
+		let mut tiles = TileMap::new();
+		let z0 = rng.below(6) as u8; let z1 = z0 + rng.below(4) as u8;
+		for z in z0..=z1 { if z == z0 || z == z1 || rng.chance(2, 3) { for _ in 0..rng.range(1, 4) { let m = (1u64 << z) - 1; let n = 1 + rng.below(30) as usize; tiles.insert((z, rng.below(m + 1) as u32, rng.below(m + 1) as u32), rng.bytes(n)); } } }
+		let tj = tilejson(&mut rng);
+		for c in ["versatiles", "pmtiles", "tar", "dir"] {
+			rtp.run(&format!("m{}_{i}", ctx.seed), c, &tiles, TileFormat::PBF, *rng.pick(&[TileCompression::Uncompressed, TileCompression::Gzip]), &tj, &mut rng, &mut viol, &mut stats);
+			*stats.entry("metadata_roundtrips".into()).or_insert(0) += 1;
+		}
+	}
+	let _ = std::fs::remove_dir_all(&dir);
+	for x in &viol { col.violation(&x.kind, &x.input, &x.input, &x.detail); }
+	col.spec_cases += stats.get("metadata_roundtrips").copied().unwrap_or(0);
+	for (k, v) in stats { col.bump(&k, v); }
+	Ok(())
+}
 
 pub fn run(ctx: &Ctx, focus: &str) -> Result<()> {
 	let mut col = Collector::new(&ctx.out)?;
